@@ -109,7 +109,7 @@ def create_stub_files(
         file_path = Path(corrected_module_dir / f"{public_module_name}.sdsstub")
         Path(file_path).touch()
 
-        with file_path.open("w", encoding="utf-8") as f:
+        with file_path.open("w", encoding="utf-8", errors="backslashreplace") as f:
             f.write(module_text)
 
         # The stub of a module must not be overwritten by the placeholder of something that is taken for a class of
